@@ -67,12 +67,17 @@ pub struct Shared {
     /// stop applying commits after this many (crash injection on the live
     /// store); u64::MAX = off
     pub freeze_after: AtomicU64,
+    /// one-shot callback run by the next store read (point read or member scan) right
+    /// after it has taken its data and before it returns it: lets a driver place a commit
+    /// (and its after-commit work) *inside* a cache fill
+    pub after_read_once: Mutex<Option<Box<dyn FnOnce() + Send>>>,
 }
 
 impl Shared {
     pub fn new(grouping: Grouping, seed: u64) -> Arc<Self> {
         Arc::new(Self {
             state: Mutex::new(BTreeMap::new()),
+            after_read_once: Mutex::new(None),
             log: Mutex::new(Vec::new()),
             grouping: Mutex::new(grouping),
             coin: Mutex::new(Rng::new(seed)),
@@ -307,6 +312,9 @@ impl KvDatabase for RecKv {
         self.shared.reads.fetch_add(1, Ordering::Relaxed);
         let (k, _) = wide_key::<W, C>(&self.plugin, key);
         let bytes = self.shared.state.lock().get(&k).cloned();
+        if let Some(f) = self.shared.after_read_once.lock().take() {
+            f();
+        }
         self.shared.maybe_delay(&self.shared.delay_read_us);
         bytes.map(|b| {
             PostcardDecoder::new(&b[..]).decode::<C>(&self.plugin).expect("RecKv: stored value decodes")
@@ -320,6 +328,9 @@ impl KvDatabase for RecKv {
             let st = self.shared.state.lock();
             st.range(prefix.clone()..).take_while(|(k, _)| k.starts_with(&prefix)).map(|(_, v)| v.clone()).collect()
         };
+        if let Some(f) = self.shared.after_read_once.lock().take() {
+            f();
+        }
         self.shared.maybe_delay(&self.shared.delay_read_us);
         vals.into_iter()
             .map(|b| {
